@@ -13,7 +13,25 @@ def check_compiled(graph, fn, code, args=None, tag=""):
 
     bad = []
     if not isinstance(graph, tracer.Graph):
-        return [("unsupported", "compiled object is not a graph (a wrapper graph was inlined to its function)")]
+        # a wrapper graph was inlined to the function it wraps (einx.add on equal shapes compiles to np.add itself): the returned text must still say WHAT is executed -
+        # executing it in an empty namespace must define `op`, and `op` must be the object that runs (repaired by fix e9f23f1: the text used to be the import line only)
+        ns = {k: v for k, v in getattr(fn, "__globals__", {}).items() if k.startswith("const")} if hasattr(fn, "__globals__") else {}
+        try:
+            exec(code, ns, ns)
+        except Exception as e:  # noqa
+            return [("C04.B.E1_text_parses", f"generated text of an inlined wrapper does not execute: {type(e).__name__}: {e}")]
+        if "op" not in ns or not callable(ns["op"]):
+            return [("C04.B.E2_self_contained", f"the returned text of an inlined wrapper defines no function `op` (text: {code!r}): it does not state what is executed")]
+        if ns["op"] is not fn:
+            if args is None:
+                return [("unsupported", "compiled object is not a graph (a wrapper graph was inlined to its function)")]
+            try:
+                same = _eq(ns["op"](*[np.array(x, copy=True) if isinstance(x, np.ndarray) else x for x in args]), fn(*[np.array(x, copy=True) if isinstance(x, np.ndarray) else x for x in args]))
+            except Exception as e:  # noqa
+                same = False
+            if not same:
+                return [("C04.B.E3_executes_like_graph", "the `op` defined by the returned text of an inlined wrapper is not the function that is executed")]
+        return [("unsupported", "compiled object is not a graph (a wrapper graph was inlined to its function): term comparison skipped, text defines the executed object")]
     consts = {k: v for k, v in getattr(fn, "__globals__", {}).items() if k.startswith("const")}
     try:
         ast.parse(code)
